@@ -165,6 +165,7 @@ Not decided: that the (min, max) handed to the selector is the true hull of the 
     lub(m, ctx);
     literal(m, ctx);
     named_first(m, ctx, "C06.named");
+    agree(m, ctx, "C06.agree");
 }
 
 fn judge(ctx: &mut Ctx, f: &FnInfo, scenario: &str, res: &Val, lo: Option<i128>, hi: Option<i128>, ext: bool, both_integral: bool) {
@@ -194,8 +195,16 @@ fn judge(ctx: &mut Ctx, f: &FnInfo, scenario: &str, res: &Val, lo: Option<i128>,
     }
 }
 
+/// the selectors' Option parameters hold i128 bounds: `None.unwrap_or_default()` is the constant 0
+fn bound_default_hook(_: &Evaluator, name: &str, a: &[Val]) -> Option<Result<Val, String>> {
+    match (name, a.first()) {
+        (".unwrap_or_default", Some(Val::Ctor(n, _, _))) if n == "None" => Some(Ok(Val::int(0))),
+        _ => None,
+    }
+}
+
 fn check_opt_selector(ctx: &mut Ctx, f: &FnInfo, consts: &dyn Fn(&str) -> Option<Val>, rp: &[i128], typed: &[(String, String)]) {
-    let ev = Evaluator { consts, call_hook: &crate::eval::no_hook, inline: None };
+    let ev = Evaluator { consts, call_hook: &bound_default_hook, inline: None };
     let mut n = 0;
     let mut results: BTreeMap<String, usize> = BTreeMap::new();
     let mut opts: Vec<Option<i128>> = vec![None];
@@ -507,4 +516,89 @@ pub fn named_first(m: &Model, ctx: &mut Ctx, rule: &str) {
         _ => ctx.violate(rule, "toplevel-value-before-own-names", &f.file, crate::rules::util::span_line(arm),
             "an identifier given as the value of a referenced type is first looked up among the top-level value assignments and only then among the named numbers of the type: `Level ::= INTEGER { limit(5) } (0..10)  limit INTEGER ::= 300  S ::= SEQUENCE { level Level DEFAULT limit }` then emits Level(300) for a u8"),
     }
+}
+
+/// Sibling agreement of the two width selectors: the type of a component / alternative is chosen by one
+/// (Rasn::int_type_token), the return type of its DEFAULT function, the type of a value assignment and the literal form
+/// by the other (Constraint::integer_constraints via Integer::int_type). For every region combination of (lower, upper,
+/// extensible) — absent bounds included — both must name the same Rust type, otherwise a field of one type is
+/// initialised from a function of another (E0308 in the generated crate).
+pub fn agree(m: &Model, ctx: &mut Ctx, rule: &str) {
+    let sel = selectors(m);
+    let consts = const_resolver(m);
+    let opt_sel = sel.iter().find(|f| f.sig.inputs.iter().filter(|a| matches!(a, syn::FnArg::Typed(_))).count() == 3);
+    let con_sel = sel.iter().find(|f| f.sig.inputs.iter().filter(|a| matches!(a, syn::FnArg::Typed(_))).count() == 0);
+    let (Some(f1), Some(f2)) = (opt_sel, con_sel) else {
+        ctx.fail_closed(rule, "the two width selectors (Option<i128> bounds / Constraint) were not both found");
+        return;
+    };
+    let mut cs = constants_of(f1);
+    cs.extend(constants_of(f2));
+    let rp = reps(&cs);
+    let canon = |n: &str| -> String {
+        let n = n.trim();
+        match n {
+            "Int8" => "i8", "Uint8" => "u8", "Int16" => "i16", "Uint16" => "u16", "Int32" => "i32", "Uint32" => "u32", "Int64" => "i64", "Uint64" => "u64", "Unbounded" => "Integer",
+            o => o,
+        }.to_string()
+    };
+    let typed: Vec<String> = f1.sig.inputs.iter().filter_map(|a| match a { syn::FnArg::Typed(t) => Some(tok(&t.pat)), _ => None }).collect();
+    let ev1 = Evaluator { consts: &consts, call_hook: &bound_default_hook, inline: None };
+    let cur: RefCell<(Option<i128>, Option<i128>, bool)> = RefCell::new((None, None, false));
+    let hook = |_: &Evaluator, name: &str, _a: &[Val]| -> Option<Result<Val, String>> {
+        let mk = |b: Option<i128>| b.map(|i| Val::some(Val::Ctor("Integer".into(), vec![Val::input(i)], BTreeMap::new()))).unwrap_or(Val::none());
+        match name {
+            ".unpack_as_value_range" => {
+                let (lo, hi, ext) = *cur.borrow();
+                Some(Ok(Val::Ctor("Ok".into(), vec![Val::Tuple(vec![mk(lo), mk(hi), Val::Bool(ext)])], BTreeMap::new())))
+            }
+            ".unpack_as_strict_value" => Some(Ok(Val::Ctor("Err".into(), vec![Val::Sym("e".into())], BTreeMap::new()))),
+            _ => None,
+        }
+    };
+    let ev2 = Evaluator { consts: &consts, call_hook: &hook, inline: None };
+    let mut opts: Vec<Option<i128>> = vec![None];
+    opts.extend(rp.iter().map(|x| Some(*x)));
+    let mut n = 0;
+    let mut reported = BTreeSet::new();
+    for lo in &opts {
+        for hi in &opts {
+            if let (Some(a), Some(b)) = (lo, hi) {
+                if a > b {
+                    continue;
+                }
+            }
+            for ext in [false, true] {
+                n += 1;
+                let mut e1 = Env::new();
+                e1.insert(typed[0].clone(), lo.map(|x| Val::some(Val::input(x))).unwrap_or(Val::none()));
+                e1.insert(typed[1].clone(), hi.map(|x| Val::some(Val::input(x))).unwrap_or(Val::none()));
+                e1.insert(typed[2].clone(), Val::Bool(ext));
+                e1.insert("self".into(), Val::ctor("Rasn"));
+                *cur.borrow_mut() = (*lo, *hi, ext);
+                let mut e2 = Env::new();
+                e2.insert("self".into(), Val::ctor("Constraint"));
+                let (r1, r2) = (ev1.eval_fn_body(&f1.block, &mut e1), ev2.eval_fn_body(&f2.block, &mut e2));
+                match (r1, r2) {
+                    (Ok(a), Ok(b)) => {
+                        let (a, b) = (canon(&result_name(&a)), canon(&result_name(&b)));
+                        if a != b {
+                            let key = format!("{}-vs-{}", a, b);
+                            if reported.insert(key.clone()) {
+                                let show = |x: &Option<i128>| x.map(|v| v.to_string()).unwrap_or("absent".into());
+                                ctx.violate(rule, &format!("selectors-disagree:{}", key), &f1.file, f1.line,
+                                    &format!("for INTEGER ({}..{}{}) {} chooses `{}` but {} chooses `{}`: a component of the first type gets a DEFAULT function / value of the second", show(lo), show(hi), if ext { ", ..." } else { "" }, f1.name, a, f2.name, b));
+                            }
+                        }
+                    }
+                    (Err(e), _) | (_, Err(e)) => {
+                        ctx.fail_closed(rule, &format!("[{:?}..{:?} ext={}]: {}", lo, hi, ext, e));
+                        return;
+                    }
+                }
+            }
+        }
+    }
+    ctx.oblige_n(&format!("{}/region-combinations", rule), n);
+    ctx.oblige(rule, "int_type_token==integer_constraints", true);
 }
